@@ -487,12 +487,13 @@ macro_rules! from_numeric_array {
                             let unexpected = || {
                                 Error::custom("Expected array of unsigned integers").with_span(expr)
                             };
-                            match expr {
+                            // Invisible groups can be nested; see FromMeta::from_expr
+                            let mut inner = expr;
+                            while let Expr::Group(group) = inner {
+                                inner = &group.expr;
+                            }
+                            match inner {
                                 Expr::Lit(lit) => $ty::from_value(&lit.lit),
-                                Expr::Group(group) => match &*group.expr {
-                                    Expr::Lit(lit) => $ty::from_value(&lit.lit),
-                                    _ => Err(unexpected()),
-                                },
                                 _ => Err(unexpected()),
                             }
                         })
